@@ -375,10 +375,10 @@ def real_bank_oracle(ctx):
                     parts.append(comp.compute_chunk(x[off : off + c]))
                     off += c
                 cl = dict(common.clone_routes(comp))[how]
-                if isinstance(cl, Exception):
-                    raise cl
                 if comp.started:
                     comp.finalize()
+                if isinstance(cl, Exception):      # computers that refuse to be copied: no copy, nothing to check
+                    raise common.NotCopyable()
                 for c in chunks[half:]:
                     parts.append(cl.compute_chunk(x[off : off + c]))
                     off += c
@@ -386,7 +386,7 @@ def real_bank_oracle(ctx):
                 extra.append(("stream continued on a %s copy" % how, np.concatenate(parts)))
                 cl2 = dict(common.clone_routes(comp))[how]
                 if isinstance(cl2, Exception):
-                    raise cl2
+                    raise common.NotCopyable()
                 parts, off = [], 0
                 for c in chunks:
                     parts.append(cl2.compute_chunk(x[off : off + c]))
@@ -394,6 +394,8 @@ def real_bank_oracle(ctx):
                 parts.append(cl2.finalize())
                 extra.append(("stream on a %s copy of the idle computer" % how, np.concatenate(parts)))
                 ctx.count("copy_handoff:" + how)
+            except common.NotCopyable:
+                ctx.count("not_copyable:" + how)
             except Exception as e:
                 ctx.violation(dict(case, copy=how), "no exception", "%s: %s" % (type(e).__name__, e), "streaming on a copied computer raises",
                               tags=dict(computer=which, clause="raises", exc=type(e).__name__))
